@@ -428,7 +428,7 @@ def mc_runs(ck):
         # (label, constants, invariants, properties)
         ("shared masks", dict(EditSet="EditsQ0" if q else "EditsQ1"), OBJ_INVS, OBJ_PROPS),
         ("env, non-pms instances", dict(Objs='{"o1"}' if q else '{"o1", "o2"}', GetAttrs='{"default_env", "use"}',
-                                        OpenLeaves='{"n4"}' if q else '{"n4", "n2"}', EditSet="EditsQ2a" if q else "EditsQ2",
+                                        OpenLeaves='{"n4"}' if q else '{"n4", "n2"}', EditSet="EditsQ2a",
                                         StrictChoices="{FALSE}"), OBJ_INVS, OBJ_PROPS),
         ("failures", dict(Objs='{"o1"}', GetAttrs='{"system", "provided"}' if q else '{"system", "provided", "profile_set"}',
                           OpenLeaves='{"n4"}', EditSet="EditsQ3", PSetChoices="{TRUE}" if q else "{TRUE, FALSE}"),
@@ -519,20 +519,20 @@ def _run(ck, scratch, cap):
 
     # every TLC run is an independent process: they are started from a small pool of threads while the main
     # thread executes histories on the real code (JVM starts are slow on a loaded box)
-    pool = ThreadPoolExecutor(ck.pick(4, 4))
+    pool = ThreadPoolExecutor(ck.pick(6, 4))
     try:
         # 1. the design: model checking + vacuity guards (collected at the end)
         mc = []
-        if not os.environ.get("G03_SKIP_MC"):
+        if True:
             for label, c, invs, props in mc_runs(ck):
                 mc.append((f"MC:{label}", None, pool.submit(tlc.run, "ProfileStack_MC", cfg_text=mc_cfg(c, invs, props),
                                                             workers=ck.pick(2, 4), timeout=ck.pick(900, 3000))))
             for c, invs, want in GUARDS:
-                mc.append((f"MC:guard {c}", want, pool.submit(tlc.run, "ProfileStack_MC", cfg_text=mc_cfg(c, invs, []),
+                mc.append((f"MC:guard {next(k for k in c if k in ('NodeCache', 'WeakCache', 'PerPath'))}=FALSE must violate {want}", want, pool.submit(tlc.run, "ProfileStack_MC", cfg_text=mc_cfg(c, invs, []),
                                                               workers=1, timeout=900)))
         # 2. spec -> code: the simulation runs while the random histories are executed
         D = ck.pick(12, 18)
-        nsim = ck.pick(40, 300)
+        nsim = ck.pick(40, 200)
         sim_consts = dict(Objs='{"o1", "o2"}', GetAttrs="AllAttrs", OpenLeaves='{"n4", "n3", "n2"}', EditSet="EditsQ1",
                           StrictChoices="{TRUE, FALSE}", PSetChoices="{TRUE, FALSE}")
         sim_cfg = mc_cfg(sim_consts, ["Emit"], [], spec="SimSpec", extra=f"CONSTANT D = {D}\n").replace(
